@@ -10,7 +10,10 @@ RULE = ("random ordered pairs of epsilon-NFA/NFA/DFA specs (0-4 states, shared 1
         "complement, difference, reverse) and by exact language equivalence with verified reference "
         "constructions (all seven). Non-trivial: first operand has >=2 states, >=2 transitions, a start and "
         "a final state.")
-THEOREMS = ["Pfl.ENFA.inter_lang",
+THEOREMS = ["Pfl.ENFA.unionR_lang",
+            "Pfl.ENFA.concatR_lang",
+            "Pfl.ENFA.starR_lang",
+            "Pfl.ENFA.inter_lang",
             "Pfl.ENFA.mapStates_lang",
             "Pfl.ENFA.reverse_lang",
             "Pfl.ENFA.complementRaw_lang",
